@@ -37,6 +37,7 @@ type ScenarioStats struct {
 	MaxPoints   int              `json:"max_choice_points"`
 	Leaked      int              `json:"leaked"`
 	Divergences int              `json:"replay_divergences"`
+	DivSample   string           `json:"divergence_sample,omitempty"`
 	Replayed    int              `json:"replayed"`
 	Violations  []FoundViolation `json:"violations,omitempty"`
 	Sample      []string         `json:"sample,omitempty"`
@@ -207,8 +208,21 @@ func (e *Explorer) explore(prefix []int, spent int, k int) bool {
 	if e.replayN%64 == 0 {
 		w2 := RunExecution(e.t, e.sc, prefix)
 		e.stats.Replayed++
-		if fingerprint(w2) != fingerprint(w) {
+		if f1, f2 := fingerprint(w), fingerprint(w2); f1 != f2 {
 			e.stats.Divergences++
+			if e.stats.DivSample == "" {
+				a, b := strings.Split(f1, ";"), strings.Split(f2, ";")
+				for i := 0; i < len(a) && i < len(b); i++ {
+					if a[i] != b[i] {
+						lo := i - 3
+						if lo < 0 {
+							lo = 0
+						}
+						e.stats.DivSample = fmt.Sprintf("prefix=%v at %d:\n A: %s\n B: %s", prefix, i, strings.Join(a[lo:i+1], " ; "), strings.Join(b[lo:i+1], " ; "))
+						break
+					}
+				}
+			}
 		}
 	}
 	if len(e.stats.Sample) == 0 || (e.stats.Execs == 50) {
